@@ -60,7 +60,7 @@ def floors(tier):
         "ops": ["add_error", "add_matrix_error", "disable_error", "enable_error", "add_parameter_constraint", "add_matrix_parameter_constraint", "set_all_parameter_values"],
         "reach": ["%s:%s" % a for a in ANCHORS],
         "sets": {"cost_alias_by_type": len(XY_ALIASES) + 2 * len(BASE_ALIASES) + 3, "source_features": 20},
-        "strata": ["model-referenced-first", "model-referenced-only", "x-source", "disabled-source", "matrix-constraint"],
+        "strata": ["model-referenced-first", "model-referenced-only", "x-source", "disabled-source", "matrix-constraint", "other-unit", "other-unit-after-fit"],
         "distinct_nontrivial": 150,
     }
 
@@ -130,8 +130,36 @@ def gen_case(rng, tier, idx, shard, nshards):
         if not (adds and adds[0][0].startswith("add_") and ops and ops[0][1].get("reference") == "model"):
             adds = [adds[int(i)] for i in perm]
         ops = adds + rest
+    fit_first = bool(rng.random() < 0.08 and ftype in ("xy", "indexed"))
+    unit = 1.0
+    if ftype in ("xy", "indexed") and not counts and fid != "unbinned" and (gi % 11 == 7 or rng.random() < 0.05):
+        # the same problem in another unit of y (data, absolute y uncertainties and the unit-carrying parameters times s): which code path
+        # evaluates the cost must not depend on the magnitude of the numbers; half of these cases run a fit first
+        from vlib.models import UNIT_PARAMS
+
+        unit = float(rng.choice([1e-5, 1e-4, 1e4]))
+        key = "y" if "y" in spec else "data"
+        spec[key] = [float(v * unit) for v in spec[key]]
+        up = set(UNIT_PARAMS[spec["model"]["family"]])
+        spec["model"]["defaults"] = [float(d * unit) if nm in up else d for nm, d in zip(m.pnames, spec["model"]["defaults"])]
+        m = Model.from_spec(spec["model"])
+        for op in ops:
+            a = op[1]
+            if op[0] not in ("add_error", "add_matrix_error") or a.get("relative") or gen.norm_axis(a.get("axis")) == "x":
+                continue
+            if op[0] == "add_error":
+                a["err"] = [float(v * unit) for v in a["err"]] if isinstance(a["err"], list) else float(a["err"] * unit)
+            elif a["matrix_type"] == "cov":
+                a["matrix"] = (np.array(a["matrix"], dtype=float) * unit * unit).tolist()
+            else:
+                a["err_val"] = [float(v * unit) for v in a["err_val"]] if isinstance(a["err_val"], list) else float(a["err_val"] * unit)
+        # constraints were drawn around the old defaults: draw them again
+        ops = [o for o in ops if o[0] not in ("add_parameter_constraint", "add_matrix_parameter_constraint")]
+        for _ in range(int(rng.integers(0, 2))):
+            ops.append(gen.gen_constraint(rng, m.pnames, m.defaults))
+        fit_first = bool(rng.random() < 0.5)
     points = [gen.perturbed_params(rng, m, 0.12) for _ in range(3)]
-    return {"property": "C01", "spec": spec, "ops": ops, "points": points, "fit_first": bool(rng.random() < 0.08 and ftype in ("xy", "indexed"))}
+    return {"property": "C01", "unit": unit, "spec": spec, "ops": ops, "points": points, "fit_first": fit_first}
 
 
 # ------------------------------------------------------------------ execution + oracle
@@ -213,6 +241,10 @@ def run_case(ctx, case):
         dsl.apply_live(fit, spec, op)
         dsl.apply_ref(ref, spec, rop)
     nontrivial = features(ctx, ref, case)
+    if case.get("unit", 1.0) != 1.0:
+        ctx.stratum("other-unit")
+        if case.get("fit_first"):
+            ctx.stratum("other-unit-after-fit")
     fid = ref.fid if spec["type"] != "unbinned" else "unbinned"
     # documented implicit switch: 'chi2' without any declared source is the no-errors chi2
     if spec["cost"] == "chi2" and not ref.sources:
